@@ -1,6 +1,7 @@
 import EtVerif.Props.C01b
 import EtVerif.Props.C01
 import EtVerif.Props.TrC09
+import EtVerif.Props.TrC01
 #print axioms EtVerif.C01.l1_contract
 #print axioms EtVerif.C01.F_contract
 #print axioms EtVerif.C01.fixedpoint_exists_unique
@@ -33,3 +34,9 @@ import EtVerif.Props.TrC09
 #print axioms EtVerif.TrC09.clone
 #print axioms EtVerif.TrC09.reset
 #print axioms EtVerif.TrC09.setDim
+-- refinement of the translated basic.Compute (Gen/Translated.lean, regenerated from /repo) to the model
+#print axioms EtVerif.TrC01.compute_refines_ok_partial
+#print axioms EtVerif.TrC01.compute_refines_err_partial
+#print axioms EtVerif.TrC01.compute_refuses_validation
+#print axioms EtVerif.TrC01.compute_schedule
+#print axioms EtVerif.TrC01.compute_default_schedule
